@@ -1,10 +1,83 @@
-//! C04 parts 2 and 3 (schedule perturbation through the yield hook; exact exploration of
-//! relation-store insertion orders).  Filled in once the relation-store hooks are merged.
+//! C04 part 2: schedule perturbation through the `yield_point` hook; part 3: exact
+//! exploration of relation-store insertion orders (c04_orders.rs).
+
+use serde_json::{json, Value};
+
 use crate::engine::{Ctx, Fail, Local};
-use serde_json::Value;
+use crate::oracle::int::SplitMix;
+use crate::props::c04::{contention_cases, judge_threaded, THREAD_COUNTS};
+use crate::props::factoring::*;
+use crate::worker::run_jobs;
 
-pub fn run(_ctx: &Ctx, _l: &mut Local) {}
+fn run_perturbed(ctx: &Ctx, l: &mut Local) {
+    let check = "perturbed@opt";
+    let per = ctx.n(24, 400) as usize;
+    let reps = ctx.pick(2usize, 8);
+    let base_cases = contention_cases(ctx, check, per);
+    let jobs: Vec<Value> = base_cases.iter().map(|c| c.job()).collect();
+    let base = run_jobs("opt", &jobs, workers(), &|_| 300.0).unwrap_or_default();
+    let base: Vec<Outcome> = base.iter().map(Outcome::from_job).collect();
+    let mut rng = SplitMix(crate::engine::hash64(&(ctx.seed, "c04-perturb")));
+    let mut cases = vec![];
+    let mut idx = vec![];
+    for (i, c) in base_cases.iter().enumerate() {
+        for r in 0..reps {
+            let mut d = c.clone();
+            d.prefs.threads = Some(THREAD_COUNTS[(i + r) % THREAD_COUNTS.len()]);
+            d.prefs.perturb = Some(rng.next() | 1);
+            cases.push(d);
+            idx.push(i);
+        }
+    }
+    let jobs: Vec<Value> = cases.iter().map(|c| c.job()).collect();
+    let res = run_jobs("opt", &jobs, 3, &|_| 600.0).unwrap_or_default();
+    for ((c, r), &i) in cases.iter().zip(res.iter()).zip(idx.iter()) {
+        let o = Outcome::from_job(r);
+        l.case();
+        l.label("perturbed-run");
+        l.label(&format!("perturbed:algo:{}", c.algo));
+        l.label(&format!("perturbed:outcome:{}", o.tag()));
+        if let crate::worker::JobResult::Resp(v) = r {
+            let writers = v["writer_threads"].as_u64().unwrap_or(0);
+            let yp = v["yield_points"].as_u64().unwrap_or(0);
+            l.label_n("yield-points-hit", yp);
+            if writers >= 2 {
+                // the rule for a non-trivial schedule case: at least two threads inserted relations
+                l.label("perturbed:>=2-writer-threads");
+                l.nontrivial(c.key());
+                l.sample(&format!("perturbed:{}", c.algo), || json!({"case": c, "writer_threads": writers, "yield_points": yp, "site_hits": v["site_hits"]}));
+            }
+        }
+        if let Err(f) = judge_threaded(c, &base[i], &o, "opt") {
+            ctx.violation(check, &f, json!({"case": c, "single_threaded": format!("{:?}", base[i])}));
+        }
+    }
+}
 
-pub fn replay(_ctx: &Ctx, check: &str, _case: &Value) -> Result<(), Fail> {
-    Err(Fail::new("HARNESS|unknown-check", check.to_string()))
+pub fn run(ctx: &Ctx, l: &mut Local) {
+    run_perturbed(ctx, l);
+    super::c04_orders::run(ctx, l);
+    ctx.essential("perturbed:>=2-writer-threads", 20);
+    ctx.essential("yield-points-hit", 1000);
+}
+
+pub fn replay(ctx: &Ctx, check: &str, case: &Value) -> Result<(), Fail> {
+    if check.starts_with("perturbed@") {
+        let c: FCase = serde_json::from_value(case["case"].clone()).map_err(|e| Fail::new("HARNESS|bad-replay-file", e.to_string()))?;
+        let mut b = c.clone();
+        b.prefs.threads = None;
+        b.prefs.perturb = None;
+        let r = run_jobs("opt", &[b.job()], 1, &|_| 600.0).map_err(|e| Fail::new("HARNESS|worker", e))?;
+        let base = Outcome::from_job(&r[0]);
+        // reproduction is statistical: repeat the perturbed schedule seed and neighbours
+        for k in 0..20u64 {
+            let mut d = c.clone();
+            d.prefs.perturb = c.prefs.perturb.map(|s| s.wrapping_add(2 * k));
+            let r = run_jobs("opt", &[d.job()], 1, &|_| 600.0).map_err(|e| Fail::new("HARNESS|worker", e))?;
+            judge_threaded(&d, &base, &Outcome::from_job(&r[0]), "opt")?;
+        }
+        Ok(())
+    } else {
+        super::c04_orders::replay(ctx, check, case)
+    }
 }
